@@ -1,3 +1,4 @@
+from copy import copy
 from math import isclose
 from itertools import repeat
 from collections import abc
@@ -402,7 +403,8 @@ class SafeLearner(Learner):
         #this logic should guarantee that we can differentiate prediction formats
         #it allows us to "is" checks to see if a returned value "is" one of the actions
         if self._prev_actions != actions:
-            self._prev_actions = actions
+            #remember a copy: a caller that changes its own list in place must not change what we remember
+            self._prev_actions = copy(actions)
             all_safe = 0 not in actions and 1 not in actions
             make_safe = lambda a: float(a) if a in [0,1] else a
             self._safe_actions = actions if all_safe else [ make_safe(a) for a in actions]
